@@ -469,8 +469,9 @@ class Check:
             ev["coverage"]["violation_replays"] = [p for _, p, _ in self.violations]
         if not ev["coverage"]["samples"]:
             ev["coverage"]["samples"] = ["(none)"]
-        os.makedirs(os.path.join(VERIF, "evidence"), exist_ok=True)
-        with open(os.path.join(VERIF, "evidence", self.prop + ".json"), "w") as f:
+        evdir = os.environ.get("VERIF_EVIDENCE_DIR", os.path.join(VERIF, "evidence"))
+        os.makedirs(evdir, exist_ok=True)
+        with open(os.path.join(evdir, self.prop + ".json"), "w") as f:
             json.dump(ev, f, indent=1, default=str)
             f.write("\n")
         self.log("done: obligations %d/%d discharged, %d evaluations, %d violations, %.1fs" % (
